@@ -181,9 +181,18 @@ pub struct DeRun<'de> {
     pub honour_fields: bool,
     /// what `is_human_readable()` reports (binary formats say false)
     pub human_readable: bool,
+    /// a typed self-describing format (like CBOR, or serde_json for these requests): a
+    /// seq/tuple request on a stored map and a map request on a stored sequence fail with
+    /// "invalid type"; `deserialize_struct` and `deserialize_any` take either
+    pub typed_requests: bool,
+    /// a format that checks struct names (like RON, or an XML root tag): `deserialize_struct`
+    /// with another name than the one the record was written under fails
+    pub expect_struct_name: Option<String>,
     /// what the code under test passed to `deserialize_struct`
     pub fields_seen: Option<&'static [&'static str]>,
     pub struct_name_seen: Option<&'static str>,
+    /// Some(shape) if the code under test asked for a sequence/tuple or a map instead of a struct
+    pub requested_shape: Option<Mode>,
     // state
     pos: usize,
     pending_value: bool,
@@ -206,8 +215,11 @@ impl<'de> DeRun<'de> {
             fault,
             honour_fields: false,
             human_readable: true,
+            typed_requests: false,
+            expect_struct_name: None,
             fields_seen: None,
             struct_name_seen: None,
+            requested_shape: None,
             pos: 0,
             pending_value: false,
             calls: 0,
@@ -268,6 +280,17 @@ impl<'de> DeRun<'de> {
             Mode::Map => self.pending_value || self.entries[self.pos.min(self.entries.len())..].iter().any(|e| self.presented(e)),
             Mode::Scalar => false,
         }
+    }
+
+    /// A request for one particular container shape.
+    fn typed<V: Visitor<'de>>(&mut self, wanted: Mode, what: &str, visitor: V) -> Result<V::Value, SimError> {
+        self.requested_shape = Some(wanted);
+        if self.typed_requests && self.mode != Mode::Scalar && self.mode != wanted {
+            self.log.byte(0xE8);
+            self.sig.byte(0xE8);
+            return Err(SimError { kind: ErrKind::InvalidType, msg: format!("invalid type: the record is stored as {:?}, the visitor's owner asked for {what}", self.mode) });
+        }
+        self.drive(visitor)
     }
 
     fn drive<V: Visitor<'de>>(&mut self, visitor: V) -> Result<V::Value, SimError> {
@@ -357,12 +380,30 @@ impl<'de> Deserializer<'de> for &mut DeRun<'de> {
         for f in fields {
             self.log.str(f);
         }
+        if let Some(want) = &self.expect_struct_name {
+            if want != name {
+                self.log.byte(0xE9);
+                self.sig.byte(0xE9);
+                return Err(SimError { kind: ErrKind::InvalidType, msg: format!("expected struct `{name}` but the record was written as struct `{want}`") });
+            }
+        }
         self.drive(visitor)
+    }
+    fn deserialize_seq<V: Visitor<'de>>(self, visitor: V) -> Result<V::Value, SimError> {
+        self.typed(Mode::Seq, "a sequence", visitor)
+    }
+    fn deserialize_tuple<V: Visitor<'de>>(self, _len: usize, visitor: V) -> Result<V::Value, SimError> {
+        self.typed(Mode::Seq, "a tuple", visitor)
+    }
+    fn deserialize_tuple_struct<V: Visitor<'de>>(self, _name: &'static str, _len: usize, visitor: V) -> Result<V::Value, SimError> {
+        self.typed(Mode::Seq, "a tuple struct", visitor)
+    }
+    fn deserialize_map<V: Visitor<'de>>(self, visitor: V) -> Result<V::Value, SimError> {
+        self.typed(Mode::Map, "a map", visitor)
     }
     serde::forward_to_deserialize_any! {
         bool i8 i16 i32 i64 i128 u8 u16 u32 u64 u128 f32 f64 char str string
-        bytes byte_buf option unit unit_struct newtype_struct seq tuple
-        tuple_struct map enum identifier ignored_any
+        bytes byte_buf option unit unit_struct newtype_struct enum identifier ignored_any
     }
     fn is_human_readable(&self) -> bool {
         self.human_readable
